@@ -24,6 +24,7 @@ RULE = ('case 0: evaluator validation against gfortran (>= 100 trees x 6 valuati
         'integer quotients as leaf/leaf terms of sums and comparisons. Non-trivial = some flag subset changed the '
         'tree and all 32 results were evaluated at >= 8 valuations; distinct = rendered tree text.')
 CASES = {'quick': 3000, 'thorough': 50000}
+THOROUGH_VALIDATED = True   # full thorough tier ran to completion with exit 0 on the unchanged tree
 MIN_NONTRIVIAL = {'quick': 1500, 'thorough': 25000}
 ANCHORS = ['loki/expression/symbolic.py']
 REQUIRED_REACH = ['simplify', 'flatten_expr', 'distribute_product', 'distribute_quotient', 'sum_literals',
